@@ -24,37 +24,49 @@ def matrix_is_complex(A):
         return np.iscomplexobj(A)
 
 
+def matrix_atol(A):
+    """ Absolute tolerance for the numerical checks; scaled down with the largest entry for matrices with small
+    entries (units), which otherwise all seem diagonal, symmetric and Hermitian """
+    if is_cvxopt_spmatrix(A):
+        amax = max(abs(A)) if len(A) > 0 else 0.0
+    elif matrix_is_sparse(A):
+        amax = np.max(np.abs(A.data)) if np.size(A.data) > 0 else 0.0
+    else:
+        amax = np.max(np.abs(A)) if np.size(A) > 0 else 0.0
+    return 1e-8 * min(1.0, amax)
+
+
 def matrix_is_diagonal(A):
     """ Checks if the matrix is diagonal"""
     if matrix_is_sparse(A):
         if isinstance(A, sps.dia_matrix):
             return len(A.offsets) == 1 and A.offsets[0] == 0
         else:
-            return np.allclose((A - sps.spdiags(A.diagonal(), 0, *A.shape)).data, 0.0)
+            return np.allclose((A - sps.spdiags(A.diagonal(), 0, *A.shape)).data, 0.0, atol=matrix_atol(A))
     elif is_cvxopt_spmatrix(A):
         return max(abs(A.I - A.J)) == 0
     else:
-        return np.allclose(A, np.diag(np.diag(A)))
+        return np.allclose(A, np.diag(np.diag(A)), atol=matrix_atol(A))
 
 
 def matrix_is_symmetric(A):
     """ Checks whether a matrix is numerically symmetric """
     if matrix_is_sparse(A):
-        return np.allclose((A-A.T).data, 0)
+        return np.allclose((A-A.T).data, 0, atol=matrix_atol(A))
     elif is_cvxopt_spmatrix(A):
-        return np.isclose(max(abs(A-A.T)), 0.0)
+        return np.isclose(max(abs(A-A.T)), 0.0, atol=matrix_atol(A))
     else:
-        return np.allclose(A, A.T)
+        return np.allclose(A, A.T, atol=matrix_atol(A))
 
 
 def matrix_is_hermitian(A):
     """ Checks whether a matrix is numerically Hermitian """
     if matrix_is_complex(A):
         if matrix_is_sparse(A):
-            return np.allclose((A-A.T.conj()).data, 0)
+            return np.allclose((A-A.T.conj()).data, 0, atol=matrix_atol(A))
         elif is_cvxopt_spmatrix(A):
-            return np.isclose(max(abs(A-A.ctrans())), 0.0)
+            return np.isclose(max(abs(A-A.ctrans())), 0.0, atol=matrix_atol(A))
         else:
-            return np.allclose(A, A.T.conj())
+            return np.allclose(A, A.T.conj(), atol=matrix_atol(A))
     else:
         return matrix_is_symmetric(A)
